@@ -133,6 +133,27 @@ class Driver:
         return [json.loads(line) for line in lines]
 
 
+# ---------------------------------------------------------------- watchdog
+class WallClockExceeded(BaseException):
+    """raised inside the implementation when one operation exceeds its wall-clock budget"""
+
+
+def with_timeout(fn, seconds, *a, **kw):
+    """run fn(*a, **kw) in-process under a wall-clock budget (SIGALRM); raises WallClockExceeded"""
+    import signal
+
+    def handler(signum, frame):
+        raise WallClockExceeded()
+
+    old = signal.signal(signal.SIGALRM, handler)
+    signal.setitimer(signal.ITIMER_REAL, seconds)
+    try:
+        return fn(*a, **kw)
+    finally:
+        signal.setitimer(signal.ITIMER_REAL, 0)
+        signal.signal(signal.SIGALRM, old)
+
+
 # ---------------------------------------------------------------- exceptions -> small enum
 def exc_class(e: BaseException) -> str:
     import re as _re
@@ -141,6 +162,8 @@ def exc_class(e: BaseException) -> str:
         from pydantic import ValidationError
     except Exception:  # pragma: no cover
         ValidationError = ()
+    if isinstance(e, WallClockExceeded):
+        return "Timeout"
     if isinstance(e, ValidationError):
         return "ValidationError"
     if isinstance(e, RecursionError):
